@@ -323,6 +323,9 @@ def run_message_property_with(ctx, spec, pre_problems=None):
                 continue
             if spec.get("filter") and not spec["filter"](r):
                 continue
+            if r["suite"] == "msg" and isinstance(r.get("model"), dict) and "rtok" in r["model"]:
+                rt = ctx.cover.setdefault("values_meeting_round_trip_theorem_premises", {"yes": 0, "no": 0})
+                rt["yes" if r["model"]["rtok"] == "1" else "no"] += 1
             total += 1
             if r.get("model", {}).get("st") == "skipped":
                 hist.setdefault("model", {})["skipped_long_input"] = hist.setdefault("model", {}).get("skipped_long_input", 0) + 1
@@ -567,7 +570,7 @@ def check_C01(ctx):
 
 def check_C03(ctx):
     return run_message_property(ctx, dict(
-        theorems=["C03_scalar", "C03_transform", "C03_duration", "C03_time"],
+        theorems=["C03_scalar", "C03_transform", "C03_duration", "C03_time", "C03_reference_round_trip", "C03_marshal_unmarshal"],
         suites=lambda c: [_msg_suite(c, 2000, 60000)] + fresh_suites(c, [("msg", ["msg", c.seed + 12, _n(c, 1200, 30000), ".proto:"])]),
         prop={"msg": msg_flag("c03")}, tie={"msg": tie_bytes}, spec={"msg": spec_msg},
         nontrivial=nontrivial_any, shrink_flag="c03=bad", rule=MSG_RULE + "; oracle: deep comparison of m with Unmarshal(Marshal(m)) (bit patterns, presence, map contents)"))
